@@ -147,6 +147,9 @@ func getPKI() (*pki, error) {
 type c30Client struct {
 	Vers uint16 `json:"vers"`
 	Cert int    `json:"cert"` // 0 none, 1 CA-signed, 2 self-signed, 3 foreign CA
+	// NoSNI: the client dials the IP address and sends no server_name extension (the certificate is checked
+	// against its IP SAN)
+	NoSNI bool `json:"no_sni,omitempty"`
 }
 
 type c30Case struct {
@@ -179,7 +182,7 @@ func genC30(t *rapid.T) c30Case {
 	}
 	n := rapid.IntRange(2, 6).Draw(t, "n")
 	for i := 0; i < n; i++ {
-		c.Clients = append(c.Clients, c30Client{Vers: c30Versions[rapid.IntRange(1, 4).Draw(t, "cv")], Cert: rapid.IntRange(0, 3).Draw(t, "cert")})
+		c.Clients = append(c.Clients, c30Client{Vers: c30Versions[rapid.IntRange(1, 4).Draw(t, "cv")], Cert: rapid.IntRange(0, 3).Draw(t, "cert"), NoSNI: rapid.Bool().Draw(t, "nosni")})
 	}
 	return c
 }
@@ -187,6 +190,9 @@ func genC30(t *rapid.T) c30Case {
 // c30Null tries to get a NULL RPC answered over TLS; it returns the negotiated version and the server's leaf serial.
 func c30Null(addr string, p *pki, cl c30Client) (ok bool, vers uint16, serial *big.Int) {
 	cfg := &tls.Config{RootCAs: p.caPool, ServerName: "localhost", MinVersion: cl.Vers, MaxVersion: cl.Vers}
+	if cl.NoSNI {
+		cfg.ServerName = "" // crypto/tls takes the host of addr (an IP literal: never sent as SNI)
+	}
 	// GetClientCertificate forces the certificate to be presented even if the
 	// server's CertificateRequest does not list its issuer (a Go client would
 	// otherwise silently send none).
@@ -365,6 +371,12 @@ func runC30(tb stat.TB, c c30Case) {
 			} else {
 				nt = true
 				okAfter, _, s2 := c30Null(addr, p, good)
+				if okAfter && s2 != nil && s2.Cmp(p.serial2) == 0 {
+					// and a client that sends no SNI
+					plain := good
+					plain.NoSNI = !good.NoSNI
+					okAfter, _, s2 = c30Null(addr, p, plain)
+				}
 				if !okAfter || s2 == nil || s2.Cmp(p.serial2) != 0 {
 					if stat.Violate(tb, id, check, "rotated-certificate-not-presented", c, "%s: after replacing the files and GetExportOptions().TLS.ReloadCertificates() (runtime update before: %q) a new handshake presented serial %v (ok=%v), want the reloaded certificate %v", what, c.PreUpdate, s2, okAfter, p.serial2) {
 						return
